@@ -602,8 +602,32 @@ def c17_matchers(v, text="", base_text="", **kw):
     return None
 
 
+def divides_by_constant_zero(ref):
+    """Some expression of the model divides by a constant sub-expression whose value is exactly 0 (u/0, a/(2 - 2))."""
+    import ast
+
+    if ref is None:
+        return False
+    ev = ref.evaluator(ref.default_point())
+    for n, node in ref._parsed.items():
+        for k in ast.walk(node):
+            if isinstance(k, ast.BinOp) and isinstance(k.op, (ast.Div, ast.Mod)):
+                fn_ids = {id(c.func) for c in ast.walk(k.right) if isinstance(c, ast.Call)}
+                if any(isinstance(q, ast.Name) and id(q) not in fn_ids and q.id != "pi" for q in ast.walk(k.right)):
+                    continue
+                try:
+                    if ev.expr(k.right, ref._src[n]).v == 0:
+                        return True
+                except Exception:
+                    continue
+    return False
+
+
 @matcher("C11")
 def c11_matchers(v, text="", ode=None, ref=None, saved=None, **kw):
+    d0 = v.get("detail", {})
+    if v.get("kind") == "saved_file_rejected" and re.search(r"(?<![\w.])(zoo|oo|nan)(?![\w.(])", d0.get("saved_line") or "") and divides_by_constant_zero(ref):
+        return "C11-division-by-a-constant-zero-is-saved-as-zoo"
     """Counterfactual for the writer: the same model saved with sympy.simplify replaced by the identity
     (harness process only) reloads to a model whose value agrees with the reference."""
     d = v.get("detail", {})
